@@ -20,10 +20,10 @@ def c01_jobs(tier):
         return [tree_job('avl', 'avl-packed-n18', 18, deadline=100),
                 tree_job('avl', 'avl-packed-asan-n13', 13, san='asan', deadline=100),
                 tree_job('avl', 'avl-unpacked-n14', 14, unpacked=True, deadline=100)]
-    return [tree_job('avl', 'avl-packed-n24', 24, deadline=2400),
-            tree_job('avl', 'avl-packed-asan-n18', 18, san='asan', deadline=2400),
-            tree_job('avl', 'avl-unpacked-n22', 22, unpacked=True, deadline=2400),
-            tree_job('avl', 'avl-unpacked-asan-n16', 16, unpacked=True, san='asan', deadline=2400)]
+    return [tree_job('avl', 'avl-packed-n27', 27, deadline=2400),
+            tree_job('avl', 'avl-packed-asan-n20', 20, san='asan', deadline=2400),
+            tree_job('avl', 'avl-unpacked-n25', 25, unpacked=True, deadline=2400),
+            tree_job('avl', 'avl-unpacked-asan-n18', 18, unpacked=True, san='asan', deadline=2400)]
 
 
 def c02_jobs(tier):
@@ -31,10 +31,10 @@ def c02_jobs(tier):
         return [tree_job('rbt', 'rbt-packed-n15', 15, deadline=100),
                 tree_job('rbt', 'rbt-packed-asan-n11', 11, san='asan', deadline=100),
                 tree_job('rbt', 'rbt-unpacked-n12', 12, unpacked=True, deadline=100)]
-    return [tree_job('rbt', 'rbt-packed-n20', 20, deadline=2400),
-            tree_job('rbt', 'rbt-packed-asan-n15', 15, san='asan', deadline=2400),
-            tree_job('rbt', 'rbt-unpacked-n18', 18, unpacked=True, deadline=2400),
-            tree_job('rbt', 'rbt-unpacked-asan-n14', 14, unpacked=True, san='asan', deadline=2400)]
+    return [tree_job('rbt', 'rbt-packed-n24', 24, deadline=2400),
+            tree_job('rbt', 'rbt-packed-asan-n17', 17, san='asan', deadline=2400),
+            tree_job('rbt', 'rbt-unpacked-n22', 22, unpacked=True, deadline=2400),
+            tree_job('rbt', 'rbt-unpacked-asan-n16', 16, unpacked=True, san='asan', deadline=2400)]
 
 
 def c03_jobs(tier):
@@ -45,12 +45,12 @@ def c03_jobs(tier):
                 tree_job('rbt', 'rbt-iter-tear-asan-n10', 10, 1, 1, 0, san='asan', deadline=100),
                 tree_job('avl', 'avl-unpacked-iter-tear-n11', 11, 1, 1, 0, unpacked=True, deadline=100),
                 tree_job('rbt', 'rbt-unpacked-iter-tear-n10', 10, 1, 1, 0, unpacked=True, deadline=100)]
-    return [tree_job('avl', 'avl-iter-tear-n20', 20, 1, 1, 0, deadline=2400),
-            tree_job('rbt', 'rbt-iter-tear-n18', 18, 1, 1, 0, deadline=2400),
-            tree_job('avl', 'avl-iter-tear-asan-n15', 15, 1, 1, 0, san='asan', deadline=2400),
-            tree_job('rbt', 'rbt-iter-tear-asan-n13', 13, 1, 1, 0, san='asan', deadline=2400),
-            tree_job('avl', 'avl-unpacked-iter-tear-n16', 16, 1, 1, 0, unpacked=True, deadline=2400),
-            tree_job('rbt', 'rbt-unpacked-iter-tear-n14', 14, 1, 1, 0, unpacked=True, deadline=2400)]
+    return [tree_job('avl', 'avl-iter-tear-n23', 23, 1, 1, 0, deadline=2400),
+            tree_job('rbt', 'rbt-iter-tear-n20', 20, 1, 1, 0, deadline=2400),
+            tree_job('avl', 'avl-iter-tear-asan-n17', 17, 1, 1, 0, san='asan', deadline=2400),
+            tree_job('rbt', 'rbt-iter-tear-asan-n15', 15, 1, 1, 0, san='asan', deadline=2400),
+            tree_job('avl', 'avl-unpacked-iter-tear-n19', 19, 1, 1, 0, unpacked=True, deadline=2400),
+            tree_job('rbt', 'rbt-unpacked-iter-tear-n17', 17, 1, 1, 0, unpacked=True, deadline=2400)]
 
 
 TREE_RULE = ('explicit-state BFS to a fixpoint over the real %s: a state is the tree shape with the stored balance/colour bits '
